@@ -67,6 +67,7 @@ type Action struct {
 	Schemas   string   `json:"schemas,omitempty"`
 	DeltaNs   int64    `json:"delta_ns,omitempty"` // end_block: block time advance
 	Msgs      []Action `json:"msgs,omitempty"`     // tx
+	Tag       string   `json:"tag,omitempty"`      // generator annotation (e.g. "boundary")
 }
 
 func (a Action) String() string {
